@@ -1060,9 +1060,11 @@ func mirroredProperty(t *testing.T, rec *vstats.Recorder) {
 				obs = o
 				what := fmt.Sprintf("Put(object %d, wrong=%v) -> %v; %s", j, wrong, err, o)
 				if err == nil {
-					if wrong {
-						t.Fatalf("%s: upload of mismatching content succeeded", what)
-					}
+					// (an acknowledged upload of mismatching content is caught
+					// by checkContents if it was stored; if both replicas
+					// already held the object, skipping the upload is
+					// legitimate)
+					c.ClassIf(wrong, "put_wrong_content_acknowledged")
 					if o.any() {
 						t.Fatalf("%s: a replica failed but the upload was acknowledged", what)
 					}
